@@ -146,7 +146,7 @@ def run(prop, tier):
             lines = [l for l in lines if len(l["h"]) == ms]
         cases = []
         for i, l in enumerate(lines):
-            cases.append({"id": i, "src": render(l, nco, wrapset, ms), "gor": True, "timeout": 8000,
+            cases.append({"id": i, "src": render(l, nco, wrapset, ms), "gor": True, "timeout": 30000,
                           "trace": "co" if i % trace_every == 0 else "", "mem": (1 << 30) if i % trace_every == 0 else 0,
                           "gor_expect": sum(1 for s in l["final"] if s != "dead")})
             for a in l["h"][-1:]:
@@ -220,9 +220,9 @@ def run(prop, tier):
     if res.violation and "Deadlock" in res.violation:
         src = ('local co\nco = coroutine.create(function()\n  local x <close> = setmetatable({}, {__close = function() '
                'emit("handler", coroutine.close(co)) end})\n  error("boom", 0)\nend)\nemit("res", coroutine.resume(co))\n')
-        o = run_lua_cases(drv, [{"id": 0, "src": src, "timeout": 3000}])[0]
+        o = run_lua_cases(drv, [{"id": 0, "src": src, "timeout": 20000}])[0]
         if o.get("timeout"):
-            o2 = run_lua_cases(drv, [{"id": 0, "src": src, "timeout": 6000}])[0]   # reproduce once more (R1)
+            o2 = run_lua_cases(drv, [{"id": 0, "src": src, "timeout": 30000}])[0]   # reproduce once more (R1)
             if o2.get("timeout"):
                 rep.violation({"kind": "hang", "why": "close-handler-closes-own-dying-coroutine"},
                               {"cmd": "lua-run", "src": src, "observed": o2, "model": "CoProtoHandler.cfg: " + res.violation})
